@@ -258,7 +258,7 @@ def main():
         print(__doc__)
         sys.exit(2)
     relfile = a[0]
-    opts = dict(props=None, workers=6, max=200, seed=1, lines=None, list=False, keep_targets=False, retry=False, retry_from=None, ops=None)
+    opts = dict(props=None, workers=6, max=200, seed=1, lines=None, list=False, keep_targets=False, retry=False, retry_from=None, ops=None, skip=0)
     i = 1
     while i < len(a):
         k = a[i].lstrip("-").replace("-", "_")
@@ -288,7 +288,7 @@ def main():
     rnd = random.Random(int(opts["seed"]))
     rnd.shuffle(muts)
     total = len(muts)
-    muts = muts[: int(opts["max"])]
+    muts = muts[int(opts["skip"]): int(opts["skip"]) + int(opts["max"])]
     if opts["retry"]:
         # only the survivors of earlier sweeps of this file (any results directory), e.g. with more properties
         import glob
